@@ -274,5 +274,66 @@ def _field_model(model, var):
     return m[3][i]
 
 
+ENV_WORKER = r"""
+import json, os, sys, datetime
+sys.path.insert(0, os.environ["VERIF_REPO"])
+from flow.record import RecordDescriptor
+import flow.record.base as base
+U = datetime.timezone.utc
+D = RecordDescriptor("c12/env", [("string", "a"), ("varint", "b")])
+r1 = D("x", 1, _source="s1", _generated=datetime.datetime(2020, 1, 1, tzinfo=U))
+pairs = {
+  "same": D("x", 1, _source="s1", _generated=datetime.datetime(2020, 1, 1, tzinfo=U)),
+  "a": D("y", 1, _source="s1", _generated=datetime.datetime(2020, 1, 1, tzinfo=U)),
+  "b": D("x", 2, _source="s1", _generated=datetime.datetime(2020, 1, 1, tzinfo=U)),
+  "_source": D("x", 1, _source="s2", _generated=datetime.datetime(2020, 1, 1, tzinfo=U)),
+  "_generated": D("x", 1, _source="s1", _generated=datetime.datetime(2021, 1, 1, tzinfo=U)),
+}
+out = {"config": sorted(base.IGNORE_FIELDS_FOR_COMPARISON)}
+for k, r2 in pairs.items():
+    out[k] = [r1 == r2, r2 == r1, hash(r1) == hash(r2)]
+print(json.dumps(out))
+"""
+
+
+def env_cases(tier):
+    return [{"env": e} for e in (None, "_generated", "_generated,_source", "a", "a,b,_source,_generated", "nosuchfield")]
+
+
+def check_env(case, ctx):
+    """FLOW_RECORD_IGNORE is the process-wide initial ignored-field configuration (read at import)."""
+    import json
+    import os
+    import subprocess
+    import sys
+
+    from vlib.runner import REPO
+
+    env = dict(os.environ, VERIF_REPO=REPO)
+    env.pop("FLOW_RECORD_IGNORE", None)
+    if case["env"] is not None:
+        env["FLOW_RECORD_IGNORE"] = case["env"]
+    p = subprocess.run([sys.executable, "-c", ENV_WORKER], env=env, stdout=subprocess.PIPE, stderr=subprocess.PIPE, timeout=120)
+    ctx.nontriv()
+    ctx.cls("FLOW_RECORD_IGNORE=%s" % case["env"])
+    if p.returncode != 0:
+        raise Violation("env/worker-failed", p.stderr.decode("utf8", "replace")[-600:])
+    out = json.loads(p.stdout.decode().strip().splitlines()[-1])
+    ignored = set(case["env"].split(",")) if case["env"] else set()
+    if set(out["config"]) != ignored:
+        raise Violation("env/config", "FLOW_RECORD_IGNORE=%r gives configuration %r" % (case["env"], out["config"]))
+    for k in ("same", "a", "b", "_source", "_generated"):
+        eq1, eq2, heq = out[k]
+        exp = k == "same" or k in ignored
+        if eq1 != eq2:
+            raise Violation("not-symmetric", "env %r pair %s" % (case["env"], k))
+        if eq1 != exp:
+            raise Violation("env/equality", "FLOW_RECORD_IGNORE=%r: records differing in %s compare %s, expected %s"
+                            % (case["env"], k, eq1, exp), detail="ignored" if k in ignored else "not-ignored")
+        if exp and not heq:
+            raise Violation("equal-but-hash-differs", "FLOW_RECORD_IGNORE=%r pair %s" % (case["env"], k), detail="env")
+
+
 def parts(tier):
-    return [Part("value-object", check, strategy=case_strategy(), examples=(300, 5000))]
+    return [Part("value-object", check, strategy=case_strategy(), examples=(300, 5000)),
+            Part("env-configuration", check_env, cases=env_cases, exhaustive=True, shards=6)]
